@@ -28,7 +28,7 @@ def main():
         print(p.stdout, p.stderr)
         return 2
     ok = res.get("applies") and res.get("compiles") and \
-        res.get("tests_passed") == 308 and res.get("demo_original_rc") == 0 and \
+        res.get("tests_passed") in (308, 315) and res.get("demo_original_rc") == 0 and \
         res.get("demo_patched_rc") not in (0, None)
     print(json.dumps(res, indent=1))
     if not ok:
@@ -41,6 +41,7 @@ def main():
             shutil.copy(os.path.join(seed, f), os.path.join(dst, f))
     meta = {
         "property": prop,
+        "note_on_test_count": "the pinned baseline is 308 stable passes; 7 flaky test_33_identifier tests also pass in a freshly checked-out worktree (315)",
         "breaks": needs,
         "origin": "independent sub-agent given only the property text and a "
                   "scratch worktree of /repo",
